@@ -177,7 +177,7 @@ def run(res, proof):
         proof.problem('driver', str(e))
     # the read_pil loop as translated from the working tree, with the real read_pil_line recorded
     from .pyreadpil_stream import source_derived_pyreadpil
-    source_derived_pyreadpil(res, proof)
+    core.run_stream(source_derived_pyreadpil, res, proof)
     for (mode, S, txt) in metas[::max(1, len(metas) // 6)]:
         res.sample({'mode': mode, 'text': txt})
     res.rule = ('%d generated consistent systems (2-6 domains with lengths / short / long / IUPAC sequences, starred declarations, 0-3 '
